@@ -38,6 +38,7 @@ RULE = (
 )
 ASSUMPTIONS = [
     "tolerance band edge is probed at +-1e-6 (quick) / +-1e-7 .. +-1e-5 (thorough), never on the edge itself: pilots whose distance to the allowable set is within 1e-8 of 1e-3 are not generated",
+    "every scenario is preceded by the same short history: EVSE objects of all three classes with the same station id and other limits were built and used before",
     "occupant is an EV with an ideal battery; 'untouched' = pilot, delivered energy, battery charge, battery power and the EV's current rate are bit-identical before/after",
     "an infinite advertised maximum (max_rate=inf) is fed back only to vacant stations",
 ]
@@ -288,8 +289,22 @@ def advertised(kind, p, mode="direct"):
     return out, flags
 
 
+def predecessors():
+    """Every scenario starts with the same short history: other EVSE objects that carried the SAME station id earlier in
+    this process (a site whose hardware was replaced) have been built and used. It makes the verdict on the EVSE under
+    test independent of which scenarios the process ran before (state the library might keep per station id)."""
+    for old in (FiniteRatesEVSE("PS-X", [5, 11]), EVSE("PS-X", max_rate=3, min_rate=0), DeadbandEVSE("PS-X", deadband_end=2, max_rate=4)):
+        for v in (0, old.max_rate):
+            old.set_pilot(v, 208, 5)
+        try:
+            old.set_pilot(97.0, 208, 5)
+        except InvalidRateError:
+            pass
+
+
 def execute(item, only=None):
     kind, p, tier = item["kind"], item["p"], item["tier"]
+    predecessors()
     ivs = allowable(kind, p)
     viol = []
     stats = {"probes": 0, "nt": set(), "outcomes": set(), "skipped": 0}
